@@ -63,6 +63,10 @@ def blockify(st):
     if st.op in ("^@", "?^@"):
         a, b = split_top_comma(rest)
         return "%s { %s }, { %s }" % (op, a, b)
+    if st.op == "?&!>":
+        # (the DSL renders partition as TWO operators, `?&!> pred -> typed identity`: each operand is its own block)
+        a, b = rest.split(" -> move |v: (Vec<", 1)
+        return "%s { %s } -> { move |v: (Vec<%s }" % (op, a, b)
     return "%s { %s }" % (op, rest)
 
 
@@ -433,7 +437,8 @@ def stream_programs(tier, seed, start):
         return ps, i
     for k, opname in enumerate(STREAM_OPS):
         # measured: Vec collection of two elements and filter/filter_map over two elements exceed 12 GB in CBMC; one element each
-        for nelem, fold in ((0 if opname == ">@>" else 1, False), (2 if opname in ("|>", "|n>", ">@>", ">^>") else 1, True)):
+        # (measured: `>@>` / `>^>` consumed by `=>[] Vec<_>` do not finish in 1200 s even with 0+1 / 1+1 elements: consumed by the fold only)
+        for nelem, fold in ((0 if opname == ">@>" else 1, opname in (">@>", ">^>")), (2 if opname in ("|>", "|n>", ">@>", ">^>") else 1, True)):
             i += 1
             ps.append(stream_program("p%04d" % i, ["join_async", "join_async_spawn"][k % 2] if False else "join_async", seed, opname, nelem, fold))
     return ps, i
